@@ -68,6 +68,23 @@ func (e *Env) runHandshake() error {
 			e.Res.Probe = &cr
 		}
 	} else {
+		if e.Sc.Aftermath != "" && !e.Res.ConnectHung {
+			for _, c := range e.Srv.Conns() {
+				if c.Closed() || !c.AdoptHandshakeKey() {
+					continue
+				}
+				w := &refsrv.W{}
+				switch e.Sc.Aftermath {
+				case "new-session":
+					c.Send(w.U32(refsrv.IDNewSession).I64(time.Now().Unix()<<32).I64(77).I64(0x0123456789abcdef).B, true)
+				case "bad-salt":
+					c.Send(w.U32(refsrv.IDBadServerSalt).I64(time.Now().Unix()<<32).I32(1).I32(48).I64(0x0123456789abcdef).B, false)
+				case "update":
+					c.Send(w.U32(0xe317af7e).B, true)
+				}
+				e.Res.Notes = append(e.Res.Notes, "aftermath sent: "+e.Sc.Aftermath)
+			}
+		}
 		// give a client that wrongly carries on a moment to send something
 		time.Sleep(150 * time.Millisecond)
 	}
